@@ -13,8 +13,9 @@ LEVEL = "model_checking"
 MANIFEST = dict(
     level="model_checking",
     text="TLC checks Converges / CacheSorted / CacheKeepsUntilParent / CacheOnlyWaiting / ConfirmsKept / TxOnce / ChainLinear / Forward on the "
-         "sync model for a segment of 4 (5) blocks, up to 3 confirm packets and one batch of 3 transactions in every delivery order with duplicates; "
-         "the transitions of that state graph (all of them in the thorough tier, a seeded sample in the quick tier) are replayed through the real "
+         "sync model for a segment of 3-5 blocks, up to 3 confirm packets and one batch of 3 transactions in every delivery order with up to 2 duplicates, "
+         "including a confirm that arrives while the engine is busy inserting its block; "
+         "the transitions of those state graphs (all of the 4-block/1-duplicate and 5-block graphs in the thorough tier, seeded samples otherwise) are replayed through the real "
          "ProtocolManager (real blocks, signatures and transactions; real chain.BlockChain, TxPool, 500 ms queue timer) and the node state logged at "
          "each quiescence point is validated step by step by TLC against the monitor, the final current/stable blocks against an in-order run on a "
          "second real node; BlockCache and ConfirmCache are replayed standalone against the sorted-multimap model for every operation on every "
@@ -88,8 +89,8 @@ def run(ctx):
         else:   # one manager replay at a time: 64 processes with a real node each
             results.append(manager(sub(ctx, "m1"), "quick", "MCSync_quick.cfg", 0, True))
             results.append(manager(sub(ctx, "m2"), "five", "MCSync_five.cfg", 0))
-            results.append(manager(sub(ctx, "m4"), "three", "MCSync_three.cfg", 5000, False, 32))
-            results.append(manager(sub(ctx, "m3"), "thorough", "MCSync_thorough.cfg", 0, False, 0, False))
+            results.append(manager(sub(ctx, "m4"), "three", "MCSync_three.cfg", 10000))
+            results.append(manager(sub(ctx, "m3"), "thorough", "MCSync_thorough.cfg", 8000))
         results += [j.result() for j in side]
         ctx.extra["negative_controls"] = neg.result()
     for r in results:
@@ -101,6 +102,7 @@ def run(ctx):
             ctx.cov["samples"] = r["samples"]
         ctx.extra.setdefault("graphs", []).append({k: v for k, v in r.items() if k != "samples"})
     ctx.cov["exhaustive"] = not q
+    ctx.extra["replay_covers_every_transition_of"] = [r["cfg"] for r in results if r.get("behaviours_total") and r["behaviours_replayed"] == r["behaviours_total"]]
     ctx.assumptions += [
         "messages are handled one at a time: the next one is delivered after the manager reached quiescence (inserts finished, caches cleared up to the stable height)",
         "a linear segment on top of genesis, 3 deputies, the node under test is an observer (never signs); block 2 carries a transaction; the batch transactions are in no block",
